@@ -18,13 +18,30 @@ def repairedGuard (k : String) : Bool := genGuard k || k == "SetConstExpression"
 /-- Side-effect-free flag of a native as registered in the source (none: no such registration). -/
 def genSafe (name : String) : Option Bool := lookup name SandboxGuards.natives
 
+/-- F-C19c (repaired by ac7cac3; the generated flag decides): the instantiable types derived from `Application` (lib/icinga/icingaapplication.ti; `Application` itself is
+    abstract).  Dropping an instance runs `Application::~Application()`, which clears the singleton. -/
+def appDerivedTypes : List String :=
+  if SandboxGuards.appDtorClearsSingleton then ["IcingaApplication"] else []      -- generated from application.cpp on every run
+
 /-- The model configured by the generated tables; native semantics, hidden-field table and templates
     are supplied by the caller. -/
 def genCfg (native : String → Option Native) (hidden : String → String → Bool) : Cfg :=
   { guard := genGuard, callCheck := SandboxGuards.callCheck, fieldCheck := SandboxGuards.fieldCheck,
     refGetSandboxed := SandboxGuards.refGetSandboxed, initDictOff := SandboxGuards.initDictOff,
     importSandboxed := SandboxGuards.importReadSandboxed,
+    ctorEffect := fun t => appDerivedTypes.contains t,
     native := native, hidden := hidden }
+
+/-- Natives as the driver instantiates them: the flag comes from the GENERATED table; a native flagged
+    side-effect free is pure, any other one visibly mutates the protected state when it is invoked — so
+    a missing call check shows up as a predicted state change. -/
+def driverNative (name : String) : Option Native :=
+  (genSafe name).map fun safe =>
+    { safe := safe,
+      run := fun _ _ p => if safe then (.ok .empty, p)
+                          else (.ok .empty, { p with globals := upsert ("MUTATED_BY_" ++ name) (.bool true) p.globals }) }
+
+def driverHidden (t f : String) : Bool := t == "ApiUser" && (f == "password" || f == "password_hash")
 
 /-- The side-effect-free flag of every native the caller supplies is the one registered in the source. -/
 def NativeFlagsFromTable (native : String → Option Native) : Prop :=
